@@ -17,4 +17,11 @@ theorem with_registers_translated (b : Nat) (regs : Array Nat) :
       | none => Flow.panic
       | some s => Flow.ret s.regs.toList := hll_with_registers_eq b regs
 
+/-- the whole `add_hashed` as translated (index, rank, register read, `max` write) is the model's `addHashed` -/
+theorem add_hashed_full_translated (s : Hll.St) (h : Nat) :
+    hll_add_hashed s.b s.regs.toList h =
+      match Hll.addHashed s h with
+      | none => Flow.panic
+      | some s' => Flow.cont s'.regs.toList := hll_add_hashed_full_eq s h
+
 end Pds.Tie.C17
